@@ -185,11 +185,19 @@ ADMIN_ONLY = ("addval", "rmval", "updcfg", "xfer_own", "revoke_own", "resume", "
 
 def mon_c08(cfg, steps):
     out = []
+    nom = None   # the account nominated by the latest successful, un-revoked, un-consumed TransferOwnership
     for s in steps:
         t = s.optoks
         if t[0] != "exec" or s.res != "ok" or s.pre is None:
             continue
         k = t[5]; who = unhex(t[3]).decode("utf-8", "replace"); pre = s.pre
+        if not s.aborted:
+            if k == "accept_own" and who != nom:
+                out.append({"step": s.idx, "what": "accept_own succeeded for %s: the nominated account is %s" % (who, nom)})
+            if k == "xfer_own":
+                nom = unhex(t[6]).decode("utf-8", "replace")
+            elif k in ("revoke_own", "accept_own"):
+                nom = None
         def bad(msg):
             out.append({"step": s.idx, "what": "%s succeeded for %s: %s" % (k, who, msg)})
         if k in ADMIN_ONLY and who != pre["admin"]:
@@ -252,4 +260,98 @@ def mon_c10(cfg, steps):
     return out
 
 
-MONITORS = {"C04": mon_c04, "C15": mon_c15, "C03": mon_c03, "C08": mon_c08, "C10": mon_c10}
+# ---------------- C11 ----------------
+def mon_c11(cfg, steps):
+    out = []
+    for s in steps:
+        t = s.optoks
+        if t[0] != "exec" or s.pre is None:
+            continue
+        k = t[5]; pre = s.pre
+        if k == "rewards":
+            coins = [x.split(":") for x in t[4][1:-1].split(",") if x]
+            amt = next((int(a) for d, a in coins if unhex(d).decode() == pre["protocol"]["denom"]), None)
+            if s.res == "ok" and s.st is not None:
+                if amt is None:
+                    out.append({"step": s.idx, "what": "ReceiveRewards succeeded without the staked asset"}); continue
+                if pre["L"] == 0:
+                    out.append({"step": s.idx, "what": "ReceiveRewards accepted while no LST exists"})
+                fee = pre["fee"]["rate"] * amt // 100000
+                if fee > amt:
+                    out.append({"step": s.idx, "what": "ReceiveRewards accepted a reward %d smaller than its fee %d" % (amt, fee)}); continue
+                rest = amt - fee
+                if s.st["N"] != pre["N"] + rest:
+                    out.append({"step": s.idx, "what": "reward %d at rate %d: staked total grew by %d, restaked amount is %d" % (amt, pre["fee"]["rate"], s.st["N"] - pre["N"], rest)})
+                if s.st["reward"] != pre["reward"] + amt:
+                    out.append({"step": s.idx, "what": "reward counter grew by %d for a reward of %d" % (s.st["reward"] - pre["reward"], amt)})
+                tr = pre["fee"]["treasury"]
+                banks = [m for m in s.msgs if m["facet"] in ("msg:bank", "msg:send")]
+                xfers = [m for m in s.msgs if m["facet"] == "msg:transfer"]
+                if len(xfers) != 1 or xfers[0].get("amount") != rest or xfers[0].get("denom") != pre["protocol"]["denom"] or xfers[0].get("receiver") != pre["native"]["staker"]:
+                    out.append({"step": s.idx, "what": "reward %d fee %d: forwarded %s, expected %d to the staker" % (amt, fee, [(m.get("amount"), m.get("receiver")) for m in xfers], rest)})
+                if tr is None:
+                    if s.st["fees"] != pre["fees"] + fee or banks:
+                        out.append({"step": s.idx, "what": "no treasury: fee balance grew by %d (fee %d), bank messages %d" % (s.st["fees"] - pre["fees"], fee, len(banks))})
+                else:
+                    if s.st["fees"] != pre["fees"] or len(banks) != 1 or banks[0].get("to") != tr or banks[0].get("amount") != fee or banks[0].get("denom") != pre["protocol"]["denom"]:
+                        out.append({"step": s.idx, "what": "treasury %s: fee %d, paid %s, fee balance change %d" % (tr, fee, [(m.get("to"), m.get("amount")) for m in banks], s.st["fees"] - pre["fees"])})
+        if k == "feewd" and s.res == "ok" and s.st is not None:
+            a = int(t[6]); tr = pre["fee"]["treasury"]
+            sends = [m for m in s.msgs if m["facet"] in ("msg:bank", "msg:send")]
+            if a > pre["fees"]:
+                out.append({"step": s.idx, "what": "FeeWithdraw of %d exceeds the accrued %d" % (a, pre["fees"])})
+            if tr is None or len(sends) != 1 or sends[0].get("to") != tr or sends[0].get("amount") != a or sends[0].get("denom") != pre["protocol"]["denom"]:
+                out.append({"step": s.idx, "what": "FeeWithdraw %d: sent %s, treasury is %s" % (a, [(m.get("to"), m.get("amount")) for m in sends], tr)})
+            if s.st["fees"] != pre["fees"] - a:
+                out.append({"step": s.idx, "what": "FeeWithdraw %d: fee balance %d -> %d" % (a, pre["fees"], s.st["fees"])})
+    return out
+
+
+# ---------------- C12 ----------------
+def mon_c12(cfg, steps):
+    """admin changes only by AcceptOwnership of the most recently nominated account, >= 7 days after that nomination"""
+    out = []
+    admin = None; nom = None     # nom = (nominee, time_s) of the latest un-cancelled successful nomination
+    for s in steps:
+        t = s.optoks
+        tre = t[0] in ("texec", "tinst")
+        if t[0] in ("inst", "tinst"):
+            if s.res == "ok":
+                admin = (s.st or {}).get("admin") if not tre else owner_of(s)
+            continue
+        if t[0] not in ("exec", "texec") or s.aborted:
+            continue
+        who = unhex(t[2] if tre else t[3]).decode("utf-8", "replace")
+        k = t[3] if tre else t[5]
+        now_s = int(t[1]) // 10 ** 9
+        new_admin = owner_of(s) if tre else (s.st or {}).get("admin")
+        if new_admin is None:
+            continue
+        if new_admin != admin:
+            if k != "accept_own" or s.res != "ok":
+                out.append({"step": s.idx, "what": "admin changed from %s to %s by %s" % (admin, new_admin, k)})
+            elif nom is None or nom[0] != who or new_admin != who:
+                out.append({"step": s.idx, "what": "AcceptOwnership by %s made %s admin; latest nomination is %r" % (who, new_admin, nom)})
+            elif now_s < nom[1] + 604800:
+                out.append({"step": s.idx, "what": "AcceptOwnership succeeded %d s after the nomination (7 days = 604800 s)" % (now_s - nom[1])})
+            admin = new_admin
+        if s.res == "ok":
+            if k == "xfer_own":
+                if who != admin:
+                    out.append({"step": s.idx, "what": "TransferOwnership succeeded for non-admin %s" % who})
+                nom = (unhex(t[4] if tre else t[6]).decode("utf-8", "replace"), now_s)
+            elif k == "revoke_own":
+                nom = None
+            elif k == "accept_own":
+                nom = None
+    return out
+
+
+def owner_of(s):
+    for o in s.lines:
+        if o[0] == "ts.owner":
+            return None if o[1] == "-" else unhex(o[1]).decode()
+    return None
+
+
+MONITORS = {"C04": mon_c04, "C15": mon_c15, "C03": mon_c03, "C08": mon_c08, "C10": mon_c10, "C11": mon_c11, "C12": mon_c12}
